@@ -458,13 +458,27 @@ void splinetable<Alloc>::write_fits(const std::string& filePath) const{
 		fitsfile* fits;
 		fits_cleanup(fitsfile* f):fits(f){}
 		~fits_cleanup(){
+			if(!fits)
+				return;
+			//We only get here if writing failed: do not leave a damaged
+			//file behind which might later be mistaken for a valid one.
 			int error=0;
-			fits_close_file(fits, &error);
+			fits_delete_file(fits, &error);
 			fits_report_error(stderr, error);
 		}
 	} cleanup(fits);
 	
 	write_fits_core(fits);
+	
+	//Most data only reaches the file when it is flushed and closed, so errors
+	//at that point must not be swallowed.
+	cleanup.fits=nullptr;
+	fits_close_file(fits, &error);
+	if (error != 0){
+		fits_report_error(stderr, error);
+		remove(filePath.c_str());
+		throw std::runtime_error("CFITSIO failed to finish writing "+filePath+": Error "+std::to_string(error));
+	}
 }
 	
 template<typename Alloc>
@@ -482,10 +496,15 @@ std::pair<void*,size_t> splinetable<Alloc>::write_fits_mem() const{
 	try{
 		fits_create_memfile(&fits, &buf, &memsize, FITS_blocksize, realloc, &error);
 		
+		if (error != 0)
+			throw std::runtime_error("CFITSIO failed to create memory 'file'");
+		
 		struct fits_cleanup{
 			fitsfile* fits;
 			fits_cleanup(fitsfile* f):fits(f){}
 			~fits_cleanup(){
+				if(!fits)
+					return;
 				int error=0;
 				fits_close_file(fits, &error);
 				fits_report_error(stderr, error);
@@ -493,7 +512,13 @@ std::pair<void*,size_t> splinetable<Alloc>::write_fits_mem() const{
 		} cleanup(fits);
 		
 		write_fits_core(fits);
+		
+		cleanup.fits=nullptr;
+		fits_close_file(fits, &error);
+		if (error != 0)
+			throw std::runtime_error("CFITSIO failed to finish writing: Error "+std::to_string(error));
 	}catch(std::exception& ex){
+		free(buf);
 		throw std::runtime_error("Failed to write FITS memory 'file': \n"+std::string(ex.what()));
 	}
 	
